@@ -1016,6 +1016,15 @@ static carquet_status_t load_next_page_mmap(
     if (zero_copy_eligible && !has_levels) {
         /* ====== ZERO-COPY PATH ====== */
 
+        /* The view hands out num_values fixed-width values straight from the
+         * page body: the body must actually contain them */
+        if ((uint64_t)num_values * (uint64_t)value_size >
+            (uint64_t)page_header.compressed_page_size) {
+            CARQUET_SET_ERROR(error, CARQUET_ERROR_DECODE,
+                "Page holds fewer bytes than its value count requires");
+            return CARQUET_ERROR_DECODE;
+        }
+
         /* Free previous owned buffer if any */
         if (reader->decoded_ownership == CARQUET_DATA_OWNED) {
             free(reader->decoded_values);
